@@ -988,6 +988,73 @@ pub fn ovl_family() -> Vec<(TypeOps, fn(&mut Rng, usize) -> Box<dyn Val>)> {
     ]
 }
 
+// ---- optional content ($value / $text / elements as Option) ---------------
+// Used as deserialization targets and as base documents for C07 / C14 (not part of the C06 domain).
+
+#[derive(Serialize, Deserialize, Debug, PartialEq, Clone)]
+#[serde(rename = "x_optvalue")]
+pub struct OptValue {
+    #[serde(rename = "@a_k", skip_serializing_if = "Option::is_none", default)]
+    pub k: Option<String>,
+    #[serde(rename = "$value", skip_serializing_if = "Option::is_none", default)]
+    pub v: Option<String>,
+}
+#[derive(Serialize, Deserialize, Debug, PartialEq, Clone)]
+#[serde(rename = "s_optchoice")]
+pub struct OptChoice {
+    #[serde(rename = "$value", skip_serializing_if = "Option::is_none", default)]
+    pub v: Option<Choice>,
+}
+#[derive(Serialize, Deserialize, Debug, PartialEq, Clone)]
+#[serde(rename = "x_opttext")]
+pub struct OptText {
+    #[serde(rename = "@a_k", default)]
+    pub k: u8,
+    #[serde(rename = "$text", skip_serializing_if = "Option::is_none", default)]
+    pub t: Option<String>,
+}
+#[derive(Serialize, Deserialize, Debug, PartialEq, Clone)]
+#[serde(rename = "s_optholder")]
+pub struct OptHolder {
+    pub x_optvalue: OptValue,
+    #[serde(skip_serializing_if = "Option::is_none", default)]
+    pub t_other: Option<String>,
+    #[serde(skip_serializing_if = "Option::is_none", default)]
+    pub s_optchoice: Option<OptChoice>,
+    #[serde(skip_serializing_if = "Option::is_none", default)]
+    pub x_opttext: Option<OptText>,
+    #[serde(default)]
+    pub s_inner: Vec<Option<Inner>>,
+}
+fn gen_optvalue(r: &mut Rng) -> OptValue {
+    OptValue {
+        k: if r.bool() { Some(gen_string(r, Pos::Attr)) } else { None },
+        v: if r.bool() { Some(gen_nonempty(r, Pos::Text)) } else { None },
+    }
+}
+fn gen_optchoice(r: &mut Rng) -> OptChoice {
+    OptChoice { v: if r.bool() { Some(gen_choice(r)) } else { None } }
+}
+fn gen_opttext(r: &mut Rng) -> OptText {
+    OptText { k: r.next() as u8, t: if r.bool() { Some(gen_nonempty(r, Pos::Text)) } else { None } }
+}
+
+/// Types with optional content; generators produce valid base documents for the mutation monitors.
+pub fn optional_family() -> Vec<TypeOps> {
+    vec![
+        ops!(OptValue, "OptValue", gen = gen_optvalue, rows = &[]),
+        ops!(OptChoice, "OptChoice", gen = gen_optchoice, rows = &[]),
+        ops!(OptText, "OptText", gen = gen_opttext, rows = &[]),
+        ops!(OptHolder, "OptHolder", gen = |r| OptHolder {
+            x_optvalue: gen_optvalue(r),
+            t_other: if r.bool() { Some(gen_nonempty(r, Pos::Text)) } else { None },
+            s_optchoice: if r.bool() { Some(gen_optchoice(r)) } else { None },
+            x_opttext: if r.bool() { Some(gen_opttext(r)) } else { None },
+            s_inner: (0..r.below(3)).map(|_| Some(gen_inner(r))).collect(),
+        }, rows = &[]),
+    ]
+}
+
 /// Extra deserialization targets for the totality property (C07); no generators.
 pub fn extra_targets() -> Vec<TypeOps> {
     vec![
